@@ -549,6 +549,19 @@ fn to_owned_canonicalizing_numbers_at_depth<V: DocumentValue>(
     }
 }
 
+/// Replace every source-spelled number in `value` by its plain parsed value
+/// (`2.50` -> `2.5`, `1e3` -> `1000`), recursively.
+fn canonicalize_number_literals(value: &mut OwnedValue) {
+    match value {
+        OwnedValue::Array(items) => items.iter_mut().for_each(canonicalize_number_literals),
+        OwnedValue::Object(map) => map.values_mut().for_each(canonicalize_number_literals),
+        OwnedValue::NumberLiteral(..) => {
+            *value = std::mem::replace(value, OwnedValue::Null).into_plain_number();
+        }
+        _ => {}
+    }
+}
+
 /// Parse input bytes according to the specified format.
 fn parse_input(bytes: &[u8], format: InputFormat) -> Result<Vec<OwnedValue>> {
     match format {
@@ -651,7 +664,7 @@ fn evaluate_yaml_direct_filtered(
                 };
 
                 if should_eval {
-                    let results = evaluate_yaml_cursor(
+                    let mut results = evaluate_yaml_cursor(
                         cursor,
                         expr,
                         sink,
@@ -659,6 +672,19 @@ fn evaluate_yaml_direct_filtered(
                         strip_style,
                         sort_keys,
                     )?;
+                    // A JSON-sourced number never keeps its source spelling
+                    // (#978): the M2 streamers canonicalize it through
+                    // `YamlIndex::mark_json_sourced`, so the materialized
+                    // route must too or `2.50`/`1e3` print differently
+                    // depending on which route a flag happened to select.
+                    // JSON output only (`need_comments` is "YAML output"): the
+                    // YAML emitter formats a plain `Float` by its own yq rules
+                    // (`!!float`, exponent forms), which is a separate gap.
+                    if mark_json_sourced && !need_comments {
+                        for (value, _) in &mut results {
+                            canonicalize_number_literals(value);
+                        }
+                    }
                     // Only include documents that have results (select may filter them out)
                     if !results.is_empty() {
                         doc_results.push(results);
